@@ -359,10 +359,16 @@ def r14e(ctx, rep, cr):
         if owner == T + '::get_expired':
             defs, cd = A.Defs(f), A.control_deps(f)
             for c in rems:
-                nc = A.necessary_condition_sources(f, c.bb, defs, cd)
-                ok = any(any(x.endswith('GrantTTLEntry.expires_at') for x in sl.fields) and any('Instant' in y and 'now' in y for y in sl.calls | {z for z in sl.calls})
-                         or (any(x.endswith('GrantTTLEntry.expires_at') for x in sl.fields) and (sl.binops & {'Le', 'Lt', 'Ge', 'Gt'} or any(re.search(r'PartialOrd.*::(le|lt|ge|gt)$', z) for z in sl.calls)))
-                         for (_, _, sl) in nc)
+                ok = False
+                for at in lib.must_pass_atoms(cr.fns, f, defs, c.bb):
+                    if at.kind == 'cmp' and at.op in ('Le', 'Lt', 'Ge', 'Gt'):
+                        sls = at.side_slices()
+                    elif at.kind == 'call' and at.pol and re.search(r'PartialOrd.*::(le|lt|ge|gt)$', at.call.resolved + ' ' + at.call.generic):
+                        sls = [A.backward_slice(at.fn, [x for x in at.call.args if x[0] != 'k'], at.defs)]
+                    else:
+                        continue
+                    if any(any(x.endswith('GrantTTLEntry.expires_at') for x in sl.fields) for sl in sls):
+                        ok = True
                 if ok:
                     rep.holds('R14e', f, 'pop only if expired', '')
                 else:
